@@ -2,7 +2,7 @@
 import ast
 
 from .astutil import unparse, dotted
-from .bitcells import (Unsupported, Param, View, Bits, CU32, ModVal, XorVal, Maybe, TableVal, Opaque, FuncValue, TOP, Record,
+from .bitcells import (Unsupported, Param, View, Bits, CU32, ModVal, XorVal, Maybe, TableVal, Opaque, FuncValue, TOP, Record, Obj, ClassValue, BoundMethod,
                        PCell, INF, decide_range, cmp_pred, points_pred, mod_pred, origbit_pred, interval_pred, intervals_pred)
 from .bitexpr import CONSTS
 
@@ -70,6 +70,20 @@ class StmtMixin:
             if st.dead:
                 return None
             self.bind_target(s.target, v, st, s)
+            return st
+        if isinstance(s, ast.AugAssign) and isinstance(s.target, ast.Attribute):
+            base = self.ev(s.target.value, st)
+            if not isinstance(base, Obj):
+                raise Unsupported('augmented assignment form {}'.format(unparse(s)))
+            cur = self.get_attr(base, s.target.attr, st, s)
+            rhs = self.ev(s.value, st)
+            if st.dead:
+                return None
+            fake = ast.BinOp(left=ast.copy_location(ast.Attribute(value=s.target.value, attr=s.target.attr, ctx=ast.Load()), s.target),
+                             op=s.op, right=s.value)
+            ast.copy_location(fake, s)
+            ast.fix_missing_locations(fake)
+            self.set_attr(base, s.target.attr, self.binop(fake, cur, rhs, st), st, s)
             return st
         if isinstance(s, ast.AugAssign):
             if not isinstance(s.target, ast.Name):
@@ -143,6 +157,11 @@ class StmtMixin:
             for e, x in zip(t.elts, v):
                 self.bind_target(e, x, st, node)
             return
+        if isinstance(t, ast.Attribute):
+            base = self.ev(t.value, st)
+            if isinstance(base, Obj):
+                self.set_attr(base, t.attr, v, st, node)
+                return
         if isinstance(t, ast.Subscript) and isinstance(t.value, ast.Name) and t.value.id in st.env:
             d = st.env[t.value.id]
             key = self.ev(t.slice, st)
@@ -487,7 +506,7 @@ class StmtMixin:
             return (st, None, True) if res else (None, st, True)
         if isinstance(op, (ast.Is, ast.IsNot, ast.Eq, ast.NotEq)) and (a is None or b is None):
             other = b if a is None else a
-            if isinstance(other, (Param, View, Bits, ModVal, list, dict, FuncValue, Opaque, TableVal, Record)):
+            if isinstance(other, (Param, View, Bits, ModVal, list, dict, FuncValue, Opaque, TableVal, Record, Obj, ClassValue, BoundMethod)):
                 res = isinstance(op, (ast.IsNot, ast.NotEq))
                 return (st, None, True) if res else (None, st, True)
         # normalise: abstract on the left
